@@ -1,3 +1,270 @@
 import B6.Driver.Common
-/-! Driver for C09 — stub (the check for this property is not built yet). -/
-def main : IO Unit := B6.Driver.run { σ := Unit, init := (), step := fun s _ _ => (s, .bad) }
+import B6.Model.Containers
+/-!
+Driver for C09.  Numbers are unsigned decimal 64-bit words, byte strings lowercase hex (`-` = empty).
+State = the map built by the last `map` line: the entries written (the spec) and the bytes the
+*implementation* produced (the model readers run on those bytes, so one byte difference in the writer
+does not cascade into the reader lines).
+
+  `delta [v…]`            => `hex k [v'…]`            Marshal/UnmarshalDeltaCodedUint64s      pred: v' = v
+  `ints [v…]`             => `hex k [v'…]`            …DeltaCodedInts (ints as 64-bit words)   pred: v' = v
+  `deltad n hex`          => `k [v…]` | `panic`       decode of arbitrary bytes (model only)
+  `fix v l`               => `hex v'` | `panic`       Marshal/UnmarshalUint64                  pred (l ≥ Uint64Length v, l ≥ 1): v' = v
+  `len v`                 => `n`                      Uint64Length
+  `ba n | i:len … | i:hex+hex …` => `hex end blen rlen [item…]` | `panic`
+                                                      pred (every item filled exactly): item i = concatenation of its writes
+  `st [hex…]`             => `hex end blen [t…] [s:i…] eq`   pred: table = permutation of the distinct strings, counts
+                                                      non-increasing, builder index of t_i = i, Equal agrees
+  `map b t [id:tag:hex…]` => `b' t' hex end blen rlen` | `panic`
+  `fill id`               => `[tag:hex…]`             pred: = entries written under id, in write order
+  `first id`              => `tag:hex` | `none`       pred: = first of them
+  `firsttag id tag`       => `hex` | `none`           pred: = first of them with the tag
+  `iter`                  => `[id{tag:hex,…}…]`       pred: every distinct id exactly once with all its entries
+  `each g`                => same, groups sorted by id
+-/
+open B6.Driver B6.Model.Containers B6.Model.Varint B6.Model.Bits
+namespace B6.Driver.C09
+
+def u64? (s : String) : Option (BitVec 64) :=
+  match s.toNat? with
+  | some n => if n < 2 ^ 64 then some (BitVec.ofNat 64 n) else none
+  | none => none
+
+def r64 (v : BitVec 64) : String := toString v.toNat
+
+def parseWords (s : String) : Option (List (BitVec 64)) := (parseBracket s).bind fun ws => ws.mapM u64?
+
+def renderWords (vs : List (BitVec 64)) : String := renderList (vs.map r64)
+
+/-- text after the first word of the op -/
+def rest (op : String) : String := strim (String.ofList (op.toList.dropWhile (· ≠ ' ')))
+
+structure St where
+  entries : List Entry
+  view : Option MapView
+
+def renderEntry (e : Entry) : String := s!"{e.tag.toNat}:{renderHex e.data}"
+
+/-- insertion sort of strings (canonical order inside one id group, as the harness does with sort.Strings) -/
+def insertStr (s : String) : List String → List String
+  | [] => [s]
+  | x :: xs => if s ≤ x then s :: x :: xs else x :: insertStr s xs
+def sortStrs (xs : List String) : List String := xs.foldr insertStr []
+
+def renderGroup (g : BitVec 64 × List Entry) : String :=
+  r64 g.1 ++ "{" ++ ",".intercalate (sortStrs (g.2.map renderEntry)) ++ "}"
+
+def renderGroups (gs : List (BitVec 64 × List Entry)) : String := renderList (gs.map renderGroup)
+
+def insertGroup (g : BitVec 64 × List Entry) : List (BitVec 64 × List Entry) → List (BitVec 64 × List Entry)
+  | [] => [g]
+  | x :: xs => if g.1 ≤ x.1 then g :: x :: xs else x :: insertGroup g xs
+def sortGroups (gs : List (BitVec 64 × List Entry)) := gs.foldr insertGroup []
+
+/-- the spec of iteration: the distinct ids (in the given visiting order) each with all entries written under it. -/
+def specGroups (es : List Entry) (order : List (BitVec 64)) : List (BitVec 64 × List Entry) :=
+  order.map fun id => (id, es.filter fun e => e.id == id)
+
+def judge (impl model spec clause : String) : Verdict :=
+  if impl == spec then (if impl == model then .ok else .diff model) else .propfail clause
+
+def judgeM (impl model : String) : Verdict := if impl == model then .ok else .diff model
+
+def parseEntry (s : String) : Option Entry :=
+  match s.splitOn ":" with
+  | [a, b, c] => do
+    let id ← u64? a
+    let tag ← u64? b
+    let d ← parseHex c
+    pure { id := id, tag := tag, data := d }
+  | _ => none
+
+def parseRes (s : String) : Option (List (Nat × Nat)) :=
+  if strim s == "-" then some [] else
+  (words s).mapM fun w => match w.splitOn ":" with
+    | [a, b] => do pure ((← a.toNat?), (← b.toNat?))
+    | _ => none
+
+def parseWrites (s : String) : Option (List (Nat × List Bytes)) :=
+  if strim s == "-" then some [] else
+  (words s).mapM fun w => match w.splitOn ":" with
+    | [a, b] => do
+      let i ← a.toNat?
+      let bufs ← (b.splitOn "+").mapM parseHex
+      pure (i, bufs)
+    | _ => none
+
+def optStr : Option String → String
+  | some s => s
+  | none => "panic"
+
+def stepBA (op impl : String) : Verdict :=
+  match (rest op).splitOn " | " with
+  | [ns, rs, ws] =>
+    match ns.toNat?, parseRes rs, parseWrites ws with
+    | some n, some res, some writes =>
+      -- Reserve calls: per-item sums (`none` = Reserve panics: item out of range)
+      let sums : Option (List Nat) := res.foldl (fun acc (i, l) => acc.bind fun xs =>
+        if i < n then some (xs.set i ((xs.getD i 0) + l)) else none) (some (List.replicate n 0))
+      let model : Option String := do
+        let sums ← sums
+        let w0 := baStart sums
+        let w ← writes.foldl (fun acc (i, bufs) => acc.bind fun w => baWriteItem w i bufs) (some w0)
+        let items := (List.range n).map fun i => match baItem w.out i with | some b => renderHex b | none => "panic"
+        let endOff := baDataOffset sums + total sums
+        let rlen := match baLength w.out with | some l => toString l | none => "panic"
+        pure s!"{renderHex w.out} {endOff} {endOff} {rlen} {renderList items}"
+      let m := optStr model
+      -- spec: when every item is filled exactly, item i reads back the concatenation of its writes
+      let concat (i : Nat) : Bytes := (writes.filter (·.1 == i)).flatMap fun w => w.2.flatten
+      let exact := match sums with
+        | some s => (List.range n).all (fun i => (concat i).length == s.getD i 0) && writes.all (·.1 < n)
+        | none => false
+      if exact then
+        let specItems := renderList ((List.range n).map fun i => renderHex (concat i))
+        match impl.splitOn " [" with
+        | [_, items] => if "[" ++ items == specItems then judgeM impl m else .propfail "bytearrays_item"
+        | _ => .propfail "bytearrays_item"
+      else judgeM impl m
+    | _, _, _ => .bad
+  | _ => .bad
+
+def count (xs : List Bytes) (s : Bytes) : Nat := (xs.filter (· == s)).length
+
+def stepST (op impl : String) : Verdict :=
+  match parseBracket (rest op) with
+  | none => .bad
+  | some ws =>
+    match ws.mapM parseHex with
+    | none => .bad
+    | some adds =>
+      -- impl: `hex end blen [table] [lookups] eq`
+      match impl.splitOn " [" with
+      | [pre, tableS, lookS] =>
+        let lookParts := lookS.splitOn "] "
+        match parseBracket ("[" ++ tableS), lookParts with
+        | some tws, [lk, eq] =>
+          match tws.mapM parseHex, (words lk).mapM (fun w => match w.splitOn ":" with
+              | [a, b] => do pure ((← parseHex a), (← b.toNat?))
+              | _ => none) with
+          | some table, some looks =>
+            let distinct := adds.eraseDups
+            let okPerm := table.length == distinct.length && distinct.all (table.contains ·) && table.eraseDups.length == table.length
+            let okCounts := (table.zip (table.drop 1)).all fun (a, b) => count adds a ≥ count adds b
+            let okIdx := looks.length == distinct.length &&
+              looks.all fun (s, i) => table[i]? == some s
+            if !(okPerm && okCounts && okIdx && eq == "eq") then .propfail "stringtable_lookup"
+            else
+              let bytes := stEncode table
+              let m := s!"{renderHex bytes} {bytes.length} {bytes.length}"
+              -- and the model reader on the implementation's bytes
+              let implHex := (words pre).headD ""
+              let readOK := match parseHex implHex with
+                | some ib => (List.range table.length).all fun i => stLookup ib i == table[i]?
+                | none => false
+              if pre == m && readOK then .ok else .diff (m ++ (if readOK then "" else " (model reader disagrees)"))
+          | _, _ => .bad
+        | _, _ => .bad
+      | _ => if impl == "panic" then .propfail "stringtable_lookup" else .bad
+
+def step (st : St) (op impl : String) : St × Verdict :=
+  match words op with
+  | "delta" :: _ | "ints" :: _ =>
+    match parseWords (rest op) with
+    | none => (st, .bad)
+    | some vs =>
+      let bytes := marshalDelta vs
+      let m := match unmarshalDelta vs.length bytes with
+        | some (out, k) => s!"{renderHex bytes} {k} {renderWords out}"
+        | none => "panic"
+      -- the predicate looks at the decoded list only (last bracket group of the implementation's answer)
+      let implList := match impl.splitOn " [" with | [_, l] => "[" ++ l | _ => ""
+      (st, if implList == renderWords vs then judgeM impl m else .propfail "delta_roundtrip")
+  | ["deltad", ns, hs] =>
+    match ns.toNat?, parseHex hs with
+    | some n, some data =>
+      let m := match unmarshalDelta n data with
+        | some (out, k) => s!"{k} {renderWords out}"
+        | none => "panic"
+      (st, judgeM impl m)
+    | _, _ => (st, .bad)
+  | ["fix", vs, ls] =>
+    match u64? vs, ls.toNat? with
+    | some v, some l =>
+      let bytes := marshalUint64 v.toNat l
+      let m := match unmarshalUint64 l bytes with
+        | some back => s!"{renderHex bytes} {back}"
+        | none => "panic"
+      if l ≥ uint64Length v.toNat then
+        (st, judge impl m s!"{renderHex bytes} {v.toNat}" "fixed_width_roundtrip")
+      else (st, judgeM impl m)
+    | _, _ => (st, .bad)
+  | ["len", vs] =>
+    match u64? vs with
+    | some v => (st, judgeM impl (toString (uint64Length v.toNat)))
+    | none => (st, .bad)
+  | "ba" :: _ => (st, stepBA op impl)
+  | "st" :: _ => (st, stepST op impl)
+  | "map" :: bs :: ts :: _ =>
+    match u64? bs, u64? ts, (parseBracket (String.ofList ((rest op).toList.dropWhile (· ≠ '[')))).bind (·.mapM parseEntry) with
+    | some b, some t, some es =>
+      let (b', t') := builderLayout b t
+      let bytes := mapEncode b' t' es
+      let tagsFit := es.all fun e => decide (e.tag < (1#64 <<< t'))
+      let m := if tagsFit then s!"{b'.toNat} {t'.toNat} {renderHex bytes} {bytes.length} {bytes.length} {bytes.length}" else "panic"
+      -- resynchronise on the implementation's bytes
+      let view := match words impl with
+        | [_, _, h, _, _, _] => (parseHex h).bind mapOpen
+        | _ => none
+      ({ entries := es, view := view }, judgeM impl m)
+    | _, _, _ => (st, .bad)
+  | ["fill", ids] =>
+    match u64? ids, st.view with
+    | some id, some mv =>
+      let m := optStr ((mapFillTagged mv id).map fun es => renderList (es.map renderEntry))
+      let spec := renderList ((st.entries.filter fun e => e.id == id).map renderEntry)
+      (st, judge impl m spec "map_fill_tagged")
+    | _, _ => (st, .bad)
+  | ["first", ids] =>
+    match u64? ids, st.view with
+    | some id, some mv =>
+      let r := fun (o : Option Entry) => match o with | some e => renderEntry e | none => "none"
+      let m := optStr ((mapFindFirst mv id).map r)
+      let spec := r (st.entries.find? fun e => e.id == id)
+      (st, judge impl m spec "map_find_first")
+    | _, _ => (st, .bad)
+  | ["firsttag", ids, tags] =>
+    match u64? ids, u64? tags, st.view with
+    | some id, some tag, some mv =>
+      let r := fun (o : Option Entry) => match o with | some e => renderHex e.data | none => "none"
+      let m := optStr ((mapFindFirstWithTag mv id tag).map r)
+      let spec := r (st.entries.find? fun e => e.id == id && e.tag == tag)
+      (st, judge impl m spec "map_find_first_with_tag")
+    | _, _, _ => (st, .bad)
+  | ["iter"] =>
+    match st.view with
+    | some mv =>
+      let m := optStr ((mapIterate mv).map renderGroups)
+      -- spec: visiting order = bucket, then id; every distinct id once with all entries written under it
+      let ids := (st.entries.map (·.id)).eraseDups
+      let order := (sortGroups (ids.map fun id => (id, ([] : List Entry)))).map (·.1)
+      let byBucket := (List.range (2 ^ mv.b.toNat)).flatMap fun k => order.filter fun id => (bucketForID id mv.b).toNat == k
+      let spec := renderGroups (specGroups st.entries byBucket)
+      (st, judge impl m spec "map_iterate")
+    | none => (st, .bad)
+  | ["each", _] =>
+    match st.view with
+    | some mv =>
+      let m := optStr ((mapIterate mv).map fun gs => renderGroups (sortGroups gs))
+      let ids := (st.entries.map (·.id)).eraseDups
+      let order := (sortGroups (ids.map fun id => (id, ([] : List Entry)))).map (·.1)
+      let spec := renderGroups (specGroups st.entries order)
+      (st, judge impl m spec "map_each_item")
+    | none => (st, .bad)
+  | _ => (st, .bad)
+
+def family : Family := { σ := St, init := { entries := [], view := none }, step := step }
+
+end B6.Driver.C09
+
+def main : IO Unit := B6.Driver.run B6.Driver.C09.family
